@@ -843,7 +843,10 @@ def same_values(a, b, tol=1e-12):
     if isinstance(a, (bool, np.bool_)):
         return bool(a) == bool(b)
     a, b = np.asarray(a), np.asarray(b)
-    return a.shape == b.shape and (a.size == 0 or bool(np.max(np.abs(a - b)) <= tol * max(1.0, float(np.max(np.abs(b))))))
+    if a.shape != b.shape or not np.array_equal(np.isnan(a), np.isnan(b)):
+        return False
+    a, b = np.nan_to_num(a), np.nan_to_num(b)          # a nan answer is the same answer when it is nan again
+    return a.size == 0 or bool(np.max(np.abs(a - b)) <= tol * max(1.0, float(np.max(np.abs(b)))))
 
 
 # methods whose result is freshly computed on the unchanged tree (so a caller may overwrite it): mutated by the aliasing probe
@@ -996,6 +999,8 @@ def compare(ctx, rep, obs, exp, tol, against, rp, skip=()):
             if got is None:
                 continue
             if not is_exc(got):
+                if np.any(np.isnan(np.asarray(got))):
+                    ctx.fail(f"squeezing:{rep}:nan", f"{rep} squeezing({key.split(':')[1]}) = {np.asarray(got).tolist()} contains nan", rp)
                 got = np.asarray(got)[:, 0]
             tol = max(tol, 1e-7)
         else:
